@@ -9,7 +9,7 @@ use refimpl as r;
 fn budget(t: Tier) -> u64 {
     match t {
         Tier::Quick => 2_800,
-        Tier::Thorough => 40_000,
+        Tier::Thorough => 200_000,
     }
 }
 
